@@ -411,7 +411,7 @@ def t1_montgomery(kind, alias=0, timeout_ms=120000):
         L2 = Lin32(timeout_ms)
         tv = sym_words(L2, "t", 24)
         # A = a*b < p^2 < p*2^384 for a, b < p (integer arithmetic on the real product); A = a < p*2^384 is the documented domain of the plain reduction
-        L2.solver.add(L2.z(lin_sum(L2, tv)) < Q * R384)
+        L2.assume(L2.z(lin_sum(L2, tv)) < Q * R384, tv)
         memo = {}
 
         def conv(v):
